@@ -64,6 +64,7 @@ type batchOp struct {
 	key   *keyCall
 	val   ssa.Value
 	top   ssa.Instruction // for an operation inside a batch helper: the call in the mutating function that stands for it
+	recv  ssa.Value       // the batch (or Writer) the operation is performed on
 }
 
 // at: the instruction of the mutating function at which the operation takes place.
@@ -95,9 +96,23 @@ func batchOpsOf(p *core.Program, fn *ssa.Function) []batchOp {
 				return
 			}
 			name := core.CalleeName(c)
+			// through the pebble.Writer interface (a helper that can be handed a batch): receiver is c.Value and the
+			// arguments are shifted by one
+			if c.IsInvoke() && strings.HasSuffix(c.Value.Type().String(), "pebble.Writer") {
+				for _, k := range []string{"Set", "Delete", "DeleteRange"} {
+					if c.Method.Name() == k && len(c.Args) >= 1 {
+						op := batchOp{instr: in.(ssa.CallInstruction), kind: k, key: builderOf(p, c.Args[0]), recv: c.Value}
+						if k == "Set" && len(c.Args) >= 2 {
+							op.val = c.Args[1]
+						}
+						out = append(out, op)
+					}
+				}
+				return
+			}
 			for _, k := range []string{"Set", "Delete", "DeleteRange"} {
 				if name == "(*"+pebblePath+".Batch)."+k || name == "(*"+pebblePath+".DB)."+k {
-					op := batchOp{instr: in.(ssa.CallInstruction), kind: k, key: builderOf(p, c.Args[1])}
+					op := batchOp{instr: in.(ssa.CallInstruction), kind: k, key: builderOf(p, c.Args[1]), recv: c.Args[0]}
 					if k == "Set" {
 						op.val = c.Args[2]
 					}
@@ -175,6 +190,8 @@ func c06(r *core.Run) {
 	c06Bound(r)
 	c06Rebuild(r, recBuilders, idxList)
 	c06Keys(r, recBuilders, idxBuilders)
+	// records decoded in a loop (rebuild, batch add, scans) must not inherit fields of the previous record
+	c18FreshTarget(r, "C06.FRESH")
 }
 
 // what the add paths do per index builder (filled by c06Adder, read by c06Rebuild)
@@ -212,7 +229,7 @@ func c06Adder(r *core.Run, fn *ssa.Function, ops []batchOp, rec map[*ssa.Functio
 		r.Fail("C06.IDX", fnm+"#commit", fn.Pos(), "no batch commit")
 		return
 	}
-	sameBatch := func(op batchOp) bool { return op.instr.Common().Args[0] == recSet.instr.Common().Args[0] }
+	sameBatch := func(op batchOp) bool { return core.Unwrap(op.recv) == core.Unwrap(recSet.recv) }
 
 	// the old record: a Signature decoded from a Get of the same key — either filled through a pointer argument
 	// (decode(data, &old)) or returned by value (old, err := decode(data))
@@ -381,7 +398,7 @@ func c06Adder(r *core.Run, fn *ssa.Function, ops []batchOp, rec map[*ssa.Functio
 						oi = i
 					case slotOf(a) == slotOf(B) || core.Resolve(a) == core.Resolve(B):
 						bi = i
-					case a == recSet.instr.Common().Args[0]:
+					case core.Unwrap(a) == core.Unwrap(recSet.recv):
 						ki = i
 					}
 				}
@@ -394,7 +411,7 @@ func c06Adder(r *core.Run, fn *ssa.Function, ops []batchOp, rec map[*ssa.Functio
 						del = &gops[i]
 						df, dO, dB, dsite = g, g.Params[oi], g.Params[bi], in
 						batchParam := ssa.Value(g.Params[ki])
-						delSameBatch = func(op batchOp) bool { return op.instr.Common().Args[0] == batchParam }
+						delSameBatch = func(op batchOp) bool { return core.Unwrap(op.recv) == batchParam }
 					}
 				}
 			})
@@ -520,6 +537,33 @@ func c06Dedup(r *core.Run, fn *ssa.Function, recSet *batchOp, B ssa.Value) {
 		}
 	})
 	r.Check(filled, "C06.DEDUP", fnm+"#last-index-prepass", recSet.instr.Pos(), "lastIdx is filled by a complete earlier pass over the same batch", "the last-index table is not filled by a complete pass before the batch is processed")
+	// the IDs are final when the table is filled: no assignment of a signature's ID can follow a table update
+	// (an ID generated afterwards is looked up under a key that was never entered, and the element is skipped)
+	core.InstrsOf(fn, func(in ssa.Instruction) {
+		mu, ok := in.(*ssa.MapUpdate)
+		if !ok || mu.Map != M {
+			return
+		}
+		if _, f, okf := sigField(mu.Key); !okf || f != "ID" {
+			return
+		}
+		reach := core.ReachAvoiding(mu.Block(), nil)
+		late := ""
+		core.InstrsOf(fn, func(in2 ssa.Instruction) {
+			st, ok := in2.(*ssa.Store)
+			if !ok {
+				return
+			}
+			fa, ok := st.Addr.(*ssa.FieldAddr)
+			if !ok || core.FieldName(fa.X.Type(), fa.Field) != "ID" || !core.IsNamed(fa.X.Type(), detPath(r.P), "Signature") {
+				return
+			}
+			if (st.Block() == mu.Block() && core.Precedes(mu, st)) || (st.Block() != mu.Block() && reach[st.Block()]) {
+				late = r.P.Pos(st.Pos())
+			}
+		})
+		r.Check(late == "", "C06.DEDUP", fnm+"#ids-final-before-table", mu.Pos(), "no signature ID is assigned after the last-index table was updated", "a signature's ID is assigned ("+late+") after its entry in the last-index table was made: the element is later looked up under its new ID, not found as 'last', and silently skipped")
+	})
 }
 
 func derivesFromLoopIndex(v ssa.Value, header *ssa.BasicBlock) bool {
